@@ -6,4 +6,5 @@ DenyOne == {<<255, 5, 0>>}
 DenyMany == {<<255, 5, 0>>, <<255, 5, 1, 0>>, <<243, 5, 1>>, <<255, 5>>}
 TailsRssi == {<<1, 44>>}
 TailsBoth == {<<1, 44>>, <<>>}
+TailsAll == {<<1, 44>>, <<>>, <<1>>}
 ====
